@@ -48,7 +48,7 @@ m = {
         "name": "pyvc",
         "path": "/verif/pyvc",
         "serves_properties": sorted(claimed),
-        "kind_free_text": "home-built deductive verifier for a Python subset: symbolic execution of the real AST re-read from /repo on every run, sidecar contracts (pre/post/raises/loop invariants/ghost traces/lock and dependency obligations) in /verif/contracts, VCs discharged by z3 5.1 with cvc5 1.0.3 on unknowns, refutations replayed natively",
+        "kind_free_text": "home-built deductive verifier for a Python subset: symbolic execution of the real AST re-read from /repo on every run, sidecar contracts (pre/post/raises/loop invariants/ghost traces/lock and dependency obligations) in /verif/contracts, VCs discharged by z3 5.1 with cvc5 1.4.0 (wheel) on unknowns, refutations replayed natively",
     }],
     "checks": checks,
     "notes": "fix: commits in /repo (unguarded by definition): " + ", ".join(hooks_commits.get("fix_commits", [])) + ". See DESIGN.md and known_findings.json.",
